@@ -320,6 +320,11 @@ PROPERTIES["C21"] = {
           functions=["<radicle_crypto::PublicKey as FromStr>::from_str", "ed25519::PublicKey::from_slice"],
           bounds=f"decoded multibase payload of {n} symbolic bytes (or a base-layer error): parsing never panics; a key is returned only for 34 bytes with the ed25519 multicodec prefix and is exactly the remaining 32 bytes")
         for n in (0, 1, 2, 3, 33, 34)
+    ] + [
+        H(f"c21_did_payload_len{n}", "ext_radicle", "c21", "ext_radicle_c21", tiers=Q, covers=1, stubs=["multibase::decode -> arbitrary answer: error, or a payload of the given length with symbolic bytes"],
+          functions=["radicle::identity::Did::decode", "<radicle_crypto::PublicKey as FromStr>::from_str"],
+          bounds=f"\"did:key:\" + a key whose decoded multibase payload is {n} symbolic bytes (or a base-layer error): never panics; a DID comes back only for a well-formed key payload and carries exactly its 32 bytes")
+        for n in (1, 34)
     ],
     "outside": ["the base-58 layer of public keys and DIDs (multibase::decode is stubbed by an arbitrary payload: it makes the Kani compiler panic and is a 32-byte big-number division loop); printing keys (to_human) and repository ids", "user agents (str::split / split_once over symbolic bytes does not finish in 900 s even at 1 symbolic byte)", "aliases longer than 3 bytes and the 32-byte limit", "Unicode (non-ASCII) control and white-space characters are only checked for not panicking"],
     "assumptions": [],
